@@ -1,3 +1,6 @@
+import json
+import os
+
 import vlib
 
 CFG = {
@@ -47,5 +50,25 @@ CFG = {
 }
 
 
+LONG_LINE_KEY = "ply:line-over-64KiB"
+
+
+def _long_lines_enabled():
+    """An ascii face line longer than bufio.Scanner's 64 KiB token (a face with a long extra list property) makes HEAD's
+    ReadMesh fail with "unexpected EOF" (finding, repair proposed in fixes/C08-ply-long-ascii-lines.patch).  Such files
+    are generated once known_findings.json lists the key (status known: reported as KNOWN-FINDING; status fixed: the
+    repaired reader must take them), or on request (C08_LONGLINES=1)."""
+    if os.environ.get("C08_LONGLINES"):
+        return True
+    try:
+        data = json.load(open(os.path.join(vlib.VERIF, "known_findings.json")))
+        return any(e.get("key") == LONG_LINE_KEY for e in data.get("findings", []))
+    except Exception:
+        return False
+
+
 def main(argv):
-    return vlib.standard_check(CFG, argv)
+    cfg = dict(CFG)
+    if _long_lines_enabled():
+        cfg["extra_args"] = ["-longlines"]
+    return vlib.standard_check(cfg, argv)
